@@ -574,6 +574,14 @@ func (E *Engine) runFrom(st *State, b *ssa.BasicBlock, i int) {
 		switch x := in.(type) {
 		case *ssa.If:
 			cv := E.val(st, x.Cond)
+			switch foldBool(cv.S) {
+			case "true":
+				E.gotoBlock(st, b.Succs[0], b)
+				return
+			case "false":
+				E.gotoBlock(st, b.Succs[1], b)
+				return
+			}
 			t := st.clone()
 			t.assume(cv.S)
 			E.gotoBlock(t, b.Succs[0], b)
@@ -1022,4 +1030,53 @@ func (E *Engine) doPanic(st *State, in *ssa.Panic) {
 		E.oblige(st, "panic-unreachable", E.site(in), "false", "explicit panic is unreachable", E.pos(in), nil)
 	}
 	c.paths++
+}
+
+// foldBool decides conditions that are literally constant (comparisons of integer literals,
+// e.g. the case index of a select): "true", "false" or "" (not constant).
+func foldBool(s string) string {
+	s = strings.TrimSpace(s)
+	if s == "true" || s == "false" {
+		return s
+	}
+	if strings.HasPrefix(s, "(not ") && strings.HasSuffix(s, ")") {
+		switch foldBool(s[5 : len(s)-1]) {
+		case "true":
+			return "false"
+		case "false":
+			return "true"
+		}
+		return ""
+	}
+	if strings.HasPrefix(s, "(= ") && strings.HasSuffix(s, ")") {
+		fs := strings.Fields(s[3 : len(s)-1])
+		if len(fs) == 2 && isIntLit(fs[0]) && isIntLit(fs[1]) {
+			if fs[0] == fs[1] {
+				return "true"
+			}
+			return "false"
+		}
+		// (= (- 1) 0)
+		body := s[3 : len(s)-1]
+		if strings.HasPrefix(body, "(- ") {
+			j := strings.Index(body, ")")
+			a, b := strings.TrimSpace(body[3:j]), strings.TrimSpace(body[j+1:])
+			if isIntLit(a) && isIntLit(b) {
+				return "false" // a negative literal never equals a non-negative one
+			}
+		}
+	}
+	return ""
+}
+
+func isIntLit(s string) bool {
+	if s == "" {
+		return false
+	}
+	for _, c := range s {
+		if c < '0' || c > '9' {
+			return false
+		}
+	}
+	return true
 }
